@@ -524,7 +524,8 @@ class C10(PropertyCheck):
 
     # ------------------------------------------------------------------------------------------------
     def oracle_replay(self, ctx, w):
-        return property_fails(w)
+        # witnesses found by the sweeps carry the mode they were evaluated in (measure lines repaired)
+        return property_fails(w, lenient_measure=bool(w.get("_lenient_measure")))
 
     def _sweep_ok(self, spec):
         """inputs outside the recorded findings' classes (measure without ';' is repaired by the lenient
@@ -556,7 +557,7 @@ class C10(PropertyCheck):
                 continue
             f, d = property_fails(spec, lenient_measure=True)
             if f:
-                yield spec, d
+                yield dict(spec, _lenient_measure=True), d
 
     def oracle_always(self, ctx):
         n = 0
@@ -568,7 +569,7 @@ class C10(PropertyCheck):
                 continue
             f, d = property_fails(spec, lenient_measure=True)
             if f:
-                yield spec, d
+                yield dict(spec, _lenient_measure=True), d
 
 
 CHECK = C10()
